@@ -127,6 +127,8 @@ pub struct MetricsView {
     pub ratio: f64,
     pub hist_count: i64,
     pub hist_bucket_sum: i64,
+    /// largest lifetime (seconds) the life-expectancy histogram has recorded
+    pub hist_max: i64,
 }
 
 fn metrics_view(m: &stretto::Metrics) -> Option<MetricsView> {
@@ -137,9 +139,12 @@ fn metrics_view(m: &stretto::Metrics) -> Option<MetricsView> {
     let text = format!("{}", h);
     let mut count = -1i64;
     let mut bsum = 0i64;
+    let mut hmax = 0i64;
     for line in text.lines() {
         if let Some(r) = line.strip_prefix("Count: ") {
             count = r.trim().parse().unwrap_or(-1);
+        } else if let Some(r) = line.strip_prefix("Max value: ") {
+            hmax = r.trim().parse().unwrap_or(0);
         } else if line.starts_with('[') {
             // "[lb, ub) ct page% cum%"
             let parts: Vec<&str> = line.split_whitespace().collect();
@@ -163,6 +168,7 @@ fn metrics_view(m: &stretto::Metrics) -> Option<MetricsView> {
         ratio: m.ratio().unwrap(),
         hist_count: count,
         hist_bucket_sum: bsum,
+        hist_max: hmax,
     })
 }
 
